@@ -501,4 +501,206 @@ Section MovingLib.
           apply (g_sent_q q a0 Ha0).
     - apply Forall_app. split; assumption.
   Qed.
+
+  (* ---------------------------------------------------------------- MoveLIB + PurgeBeforeLIB *)
+
+  Lemma key_block l x : in_U l -> In x U -> In (bid x) (keys l) -> exists e, In e l /\ eb e = x.
+  Proof.
+    intros HU Hx Hk. apply in_map_iff in Hk as (e & Hk & He). exists e. split; [exact He|].
+    apply U_uniq; [apply HU; exact He | exact Hx | exact Hk].
+  Qed.
+
+  Lemma dbinv_purge d x A a B kept : DbInv d -> chain (store d) x (ri (libref d)) (A ++ a :: B) ->
+    let d' := purge_before_lib (move_lib d (mkR (key a) (bnum (eb a)))) kept in
+    DbInv d' /\ libref d' = mkR (key a) (bnum (eb a)) /\
+    store d' = filter (fun e => bnum (eb a) - kept <=? bnum (eb e)) (store d) /\
+    chain (store d') x (key a) B.
+  Proof.
+    intros Hd Hc. pose proof Hd as [Hnd HU Hcoh Hnum Hextra Hlc]. pose proof (di_wf _ Hd) as Hwf.
+    assert (Hain : In a (A ++ a :: B)) by (apply in_or_app; right; left; reflexivity).
+    assert (Ha : In a (store d)) by (eapply chain_in; eassumption).
+    assert (HaU : In (eb a) U) by (apply HU; exact Ha).
+    pose proof (di_above _ Hd _ _ Hc a Hain) as Hab.
+    unfold purge_before_lib, move_lib. cbn [libref store rn extra].
+    set (f := fun e : entry => bnum (eb a) - kept <=? bnum (eb e)).
+    assert (Hfa : f a = true) by (unfold f; apply N.leb_le; lia).
+    split; [|split; [reflexivity|split; [reflexivity|]]].
+    - constructor; cbn [libref store rn ri extra].
+      + apply nodup_filter_keys. exact Hnd.
+      + intros e He. apply filter_In in He as [He _]. apply HU. exact He.
+      + apply (lib_coh_block (eb a) HaU). destruct Hcoh as (_ & _ & _ & Hr & _). lia.
+      + unfold num_of. cbn [store libref ri rn].
+        rewrite (find_filter_keep f _ _ a Hnd (chain_keys_in _ _ _ _ _ Hc Hain) Hfa). reflexivity.
+      + left. reflexivity.
+      + intros e He Hs. cbn [store libref rn] in *. apply filter_In in He as [He Hfe].
+        destruct (Hlc e He Hs) as [(p & Hp & Hps)|Hlow].
+        * destruct (f p) eqn:Fp.
+          -- left. exists p. split; [apply find_filter_keep; assumption | exact Hps].
+          -- right. intros y Hy Ey. pose proof (find_some _ _ _ Hp) as [Hpin Hpk].
+             assert (y = eb p).
+             { apply U_uniq; [exact Hy | apply HU; exact Hpin | rewrite Ey; symmetry; exact Hpk]. }
+             subst y. unfold f in Fp. apply N.leb_gt in Fp. lia.
+        * right. intros y Hy Ey. specialize (Hlow y Hy Ey). lia.
+    - apply chain_filter; [exact Hnd | eapply chain_suffix; eassumption|].
+      intros e He. destruct (chain_split_order _ _ _ _ _ _ Hwf Hc) as [Habove _].
+      specialize (Habove e He). unfold f. apply N.leb_le. lia.
+  Qed.
+
+  (* ---------------------------------------------------------------- the triggering step, second half *)
+
+  Definition LibHalf (s3 : fstate) (Fin : list block) (S3 : cstack) (b : block) (evs : list event)
+             (res : fstate * list event * result) : Prop :=
+    exists s' evI evS Fnew,
+      res = (s', evs ++ evI ++ evS, ROk) /\
+      Inv s' (Fin ++ Fnew) S3 /\
+      last_sent s' = Some b /\
+      Forall (fun e => estep e = SIrr) evI /\ Forall (fun e => estep e = SStalled) evS /\
+      (if f_irr (c_filter cfg) then map eblk evI = Fnew else evI = []) /\
+      rn (libref (db s3)) <= rn (libref (db s')) /\
+      Forall (fun x => rn (libref (db s3)) < bnum x /\ bnum x <= blib b) Fnew /\
+      (Fnew = [] -> s' = s3 /\ evS = []) /\
+      (forall e, In e evS -> In (eblk e) U /\ rn (libref (db s3)) < bnum (eblk e) <= rn (libref (db s')) /\
+                            ~ In (bid (eblk e)) (map bid S3)) /\
+      NoDup (map (fun e => bid (eblk e)) evS) /\
+      (forall x, In x U -> In (bid x) (keys (store (db s3))) ->
+                 In (bid x) (keys (store (db s'))) \/ bnum x < rn (libref (db s'))).
+
+  Lemma lib_half_stay s3 Fin S3 b evs : Inv s3 Fin S3 -> last_sent s3 = Some b ->
+    LibHalf s3 Fin S3 b evs (s3, evs, ROk).
+  Proof.
+    intros HI Hls. exists s3, [], [], []. rewrite !app_nil_r. split; [reflexivity|].
+    split; [exact HI|]. split; [exact Hls|]. repeat split; try constructor; auto.
+    all: try (destruct (f_irr (c_filter cfg)); reflexivity); try lia; try contradiction.
+  Qed.
+
+  Lemma seg_of_sid l : map sid (map seg_of l) = keys l.
+  Proof. unfold keys. rewrite map_map. reflexivity. Qed.
+
+  Lemma seg_of_blocks l : map (fun sg => eb (sent sg)) (map seg_of l) = map eb l.
+  Proof. rewrite map_map. reflexivity. Qed.
+
+  Lemma lib_half s3 Fin S3 b evs :
+    Inv s3 Fin S3 -> last_sent s3 = Some b -> In b U -> bid b <> ri (libref (db s3)) ->
+    LibHalf s3 Fin S3 b evs (lib_tail s3 b evs).
+  Proof.
+    intros HI Hls Hb Hne.
+    pose proof HI as [Hd Hfin Hfl Hflast Hh]. rewrite Hls in Hh. destruct Hh as (_ & p & Hc & HS & Hsent).
+    pose proof Hd as [Hnd HU Hcoh Hnum Hextra Hlc].
+    pose proof (di_wf _ Hd) as Hwf. pose proof (di_lid _ Hd) as Hlid. pose proof (di_up _ Hd) as Hup.
+    destruct p as [|et p' _] using rev_ind.
+    { apply chain_nil_inv in Hc. contradiction. }
+    destruct (chain_top _ _ _ _ _ Hc) as [Hf Hk].
+    assert (Eet : eb et = b) by (apply (stored_is_self U U_uniq _ _ _ HU Hb Hf)).
+    unfold lib_tail. rewrite Hls, (di_has_lib _ Hd). cbn [negb].
+    destruct (N.le_gt_cases (blib b) (rn (libref (db s3)))) as [Hle|Hgt].
+    - destruct (bic_dead (db s3) Hwf Hlid Hnum Hup Hextra (bid b) (p' ++ [et]) et (blib b) Hc) as (r & Hr & Hdead);
+        [destruct p'; discriminate | exact Hf | exact Hle |].
+      rewrite Eet in Hr. fold (bref b) in Hr.
+      rewrite Hr. destruct (no_new_irr (db s3) first Hwf Hlid Hup r Hdead) as [Hz|Hno].
+      + rewrite Hz, N.eqb_refl. apply lib_half_stay; assumption.
+      + destruct (ri r =? 0); [apply lib_half_stay; assumption|]. rewrite Hno. cbn [negb].
+        apply lib_half_stay; assumption.
+    - (* the LIB moves *)
+      assert (Hdec : decl_ok (eb et)) by (rewrite Eet; apply L_decl; exact Hb).
+      rewrite <- Eet in Hgt.
+      destruct (decl_split _ _ p' (bid b) et HU Hcoh Hc Hdec Hgt) as (A & a & B & Heq & Hna).
+      rewrite Eet in Hna, Hgt. rewrite Heq in Hc, HS, Hsent.
+      pose proof (bic_find (db s3) _ _ A a B et Hwf Hc Hf) as Hbic. rewrite Eet in Hbic. fold (bref b) in Hbic.
+      rewrite <- Hna. rewrite Hbic.
+      cbn [ri].
+      assert (Hain : In a (A ++ a :: B)) by (apply in_or_app; right; left; reflexivity).
+      assert (Ha : In a (store (db s3))) by (eapply chain_in; eassumption).
+      destruct (N.eqb_spec (key a) 0) as [E0|_]; [exfalso; apply (proj1 (ws_id _ Hwf a Ha)); exact E0|].
+      rewrite (new_irr_on_chain (db s3) first Hwf Hlid Hnum Hup _ A a B Hc). cbn [negb]. cbv zeta.
+      destruct (dbinv_purge (db s3) (bid b) A a B (c_kept cfg) Hd Hc) as (Hd' & Hl' & Hst' & Hc').
+      set (d' := purge_before_lib (move_lib (db s3) (mkR (key a) (bnum (eb a)))) (c_kept cfg)) in *.
+      remember (map seg_of (A ++ [a])) as irr eqn:Eirr.
+      assert (Hirr : exists b0 irr', irr = b0 :: irr').
+      { rewrite Eirr, map_app. destruct (map seg_of A); cbn [app map]; eauto. }
+      destruct Hirr as (b0 & irr' & Hirr).
+      set (stalled := stalled_in_segment (db s3) irr).
+      destruct (process_irr_segment_ok cfg Hnofail irr b0 irr' (bref b) (with_db s3 d') Hirr)
+        as (s5 & ev5 & Hrun5 & Hdb5 & Hls5 & Hlls5 & Hm5 & Hs5).
+      rewrite Hrun5. cbv beta iota. cbn [negb].
+      destruct (process_stalled_segment_ok cfg Hnofail stalled (bref b) s5)
+        as (s6 & ev6 & Hrun6 & (Hdb6 & Hls6 & Hlls6) & Hm6 & Hs6).
+      rewrite Hrun6. cbv beta iota.
+      assert (Hdb : db s6 = d') by (rewrite Hdb6, Hdb5; reflexivity).
+      assert (Hlast : last_sent s6 = Some b) by (rewrite Hls6, Hls5; exact Hls).
+      pose proof (di_above _ Hd _ _ Hc) as Habove.
+      destruct (chain_split_order _ _ _ _ _ _ Hwf Hc) as [HaboveB HbelowA].
+      assert (HA : forall e, In e (A ++ [a]) -> In e (store (db s3)) /\ rn (libref (db s3)) < bnum (eb e) <= bnum (eb a)).
+      { intros e He. assert (Hin : In e (A ++ a :: B)).
+        { apply in_app_or in He as [He|[<-|[]]]; apply in_or_app; [left; exact He | right; left; reflexivity]. }
+        split; [eapply chain_in; eassumption|]. split; [apply Habove; exact Hin|].
+        apply in_app_or in He as [He|[<-|[]]]; [specialize (HbelowA e He)|]; lia. }
+      assert (Hsplit : Fin ++ map eb (A ++ a :: B) = (Fin ++ map eb (A ++ [a])) ++ map eb B).
+      { rewrite <- app_assoc, <- map_app, <- app_assoc. reflexivity. }
+      assert (Hlibn : rn (libref d') = bnum (eb a)) by (rewrite Hl'; reflexivity).
+      exists s6, ev5, ev6, (map eb (A ++ [a])). split; [reflexivity|].
+      split; [|split; [exact Hlast|split; [exact Hs5|split; [exact Hs6|]]]].
+      { (* the invariant *)
+        constructor; rewrite ?Hdb.
+        - exact Hd'.
+        - apply Forall_app. split.
+          + eapply Forall_impl; [|exact Hfin]. cbn beta. intros x [Hx1 Hx2]. split; [exact Hx1|].
+            rewrite Hlibn. specialize (Habove a Hain). lia.
+          + apply Forall_forall. intros x Hx. apply in_map_iff in Hx as (e & <- & He).
+            destruct (HA e He) as [Hes Hn]. split; [apply HU; exact Hes | rewrite Hlibn; lia].
+        - pose proof (inv_linked s3 Fin S3 _ _ HI Hc) as Hlk. rewrite Hsplit in Hlk.
+          apply linked_split in Hlk. tauto.
+        - rewrite map_app, app_assoc, rev_app_distr. cbn [map rev app]. rewrite Hl'. reflexivity.
+        - rewrite Hlast. split; [exact Hb|]. exists B. rewrite Hl'. cbn [ri]. split; [exact Hc'|].
+          split; [rewrite HS, Hsplit; reflexivity|].
+          apply Forall_app in Hsent as [_ Hsent]. inversion Hsent; assumption. }
+      split.
+      { destruct (f_irr (c_filter cfg)); [|exact Hm5]. rewrite Hm5, Eirr. apply seg_of_blocks. }
+      split; [rewrite Hdb, Hlibn; specialize (Habove a Hain); lia|].
+      split.
+      { apply Forall_forall. intros x Hx. apply in_map_iff in Hx as (e & <- & He).
+        destruct (HA e He) as [_ Hn]. lia. }
+      split.
+      { intros Hnil. apply map_eq_nil in Hnil. destruct A; discriminate. }
+      (* the stalled blocks *)
+      assert (Hst_in : forall sg, In sg stalled -> exists e0, In e0 (store (db s3)) /\ sg = seg_of e0 /\
+                 ~ In (key e0) (keys (A ++ [a])) /\ rn (libref (db s3)) < bnum (eb e0) <= bnum (eb a)).
+      { intros sg Hsg. destruct (stalled_in (db s3) irr b0 irr' sg Hirr Hsg) as (e0 & He0 & -> & Hnin & Hlo & Hhi).
+        exists e0. split; [exact He0|]. split; [reflexivity|]. split.
+        - rewrite Eirr, seg_of_sid in Hnin. exact Hnin.
+        - assert (Hb0 : In b0 irr) by (rewrite Hirr; left; reflexivity).
+          rewrite Eirr in Hb0. apply in_map_iff in Hb0 as (e1 & <- & He1). cbn [snum seg_of] in Hlo.
+          destruct (HA e1 He1) as [_ Hn1].
+          assert (Hl : snum (last irr (seg_of e1)) = bnum (eb a)).
+          { rewrite Eirr, map_app. cbn [map]. rewrite last_last. reflexivity. }
+          rewrite Hl in Hhi. lia. }
+      split.
+      { intros e He. destruct (f_stalled (c_filter cfg)); [|rewrite Hm6 in He; destruct He].
+        assert (Hin : In (eblk e) (map eblk ev6)) by (apply in_map; exact He).
+        rewrite Hm6 in Hin. apply in_map_iff in Hin as (sg & Hsg & Hin).
+        destruct (Hst_in sg Hin) as (e0 & He0 & -> & Hnin & Hn). cbn [sent seg_of] in Hsg. rewrite <- Hsg.
+        split; [apply HU; exact He0|]. split; [rewrite Hdb, Hlibn; exact Hn|].
+        rewrite HS, map_rev, <- in_rev, map_app. intros Hin'. apply in_app_or in Hin' as [Hin'|Hin'].
+        - apply in_map_iff in Hin' as (x & Ex & Hx). rewrite Forall_forall in Hfin. destruct (Hfin x Hx) as [HxU Hxn].
+          assert (x = eb e0) by (apply U_uniq; [exact HxU | apply HU; exact He0 | exact Ex]). subst x. lia.
+        - rewrite map_map in Hin'. apply in_map_iff in Hin' as (e1 & Ek & He1).
+          assert (He1s : In e1 (store (db s3))) by (eapply chain_in; eassumption).
+          assert (e1 = e0).
+          { pose proof (find_in_nodup _ _ Hnd He1s) as F1. pose proof (find_in_nodup _ _ Hnd He0) as F0.
+            unfold key in F1, F0. rewrite Ek in F1. congruence. }
+          subst e1. apply in_app_or in He1 as [He1|[<-|He1]].
+          + apply Hnin. unfold keys. rewrite map_app. apply in_or_app. left. apply in_map. exact He1.
+          + apply Hnin. unfold keys. rewrite map_app. apply in_or_app. right. left. reflexivity.
+          + specialize (HaboveB e0 He1). lia. }
+      split.
+      { destruct (f_stalled (c_filter cfg)); [|rewrite Hm6; constructor].
+        rewrite <- (map_map eblk bid), Hm6, map_map.
+        rewrite (map_ext_in _ sid).
+        - apply (stalled_nodup (db s3) irr b0 irr' Hirr Hnd).
+        - intros sg Hsg. destruct (Hst_in sg Hsg) as (e0 & _ & -> & _). reflexivity. }
+      intros x Hx Hkx. destruct (key_block _ x HU Hx Hkx) as (e & He & <-).
+      rewrite Hdb, Hlibn, Hst'.
+      destruct (bnum (eb a) - c_kept cfg <=? bnum (eb e)) eqn:Fe.
+      + left. apply (in_map key). apply filter_In. split; [exact He | exact Fe].
+      + right. apply N.leb_gt in Fe. lia.
+  Qed.
 End MovingLib.
